@@ -131,4 +131,20 @@ theorem nodup_pairs {A : List σ} {B : List τ} (hA : A.Nodup) (hB : B.Nodup) : 
       obtain ⟨b, _, rfl⟩ := List.mem_map.mp hp
       exact ha (mem_pairs.mp hq).1
 
+/-- re-association of a zipped triple -/
+theorem count_zip_assoc {ρ : Type} [DecidableEq ρ] (A : List σ) (C : List τ) (B : List ρ)
+    (a : σ) (c : τ) (b : ρ) :
+    (A.zip (C.zip B)).count (a, (c, b)) = ((A.zip B).zip C).count ((a, b), c) := by
+  induction A generalizing C B with
+  | nil => simp
+  | cons s A ih =>
+    cases C with
+    | nil => simp
+    | cons t C =>
+      cases B with
+      | nil => simp
+      | cons r B =>
+        simp only [List.zip_cons_cons, List.count_cons, ih]
+        by_cases hs : s = a <;> by_cases ht : t = c <;> by_cases hr : r = b <;> simp [hs, ht, hr]
+
 end Nitime.C20
